@@ -1705,33 +1705,6 @@ pub fn run(opts: &Opts, rep: &Report) {
         eprintln!("MACHINERY: the large context does not pass the 2^16 mark ({} nodes, {} strings)", big.recs.len(), big.strs.len());
         std::process::exit(2);
     }
-    if std::env::var("C12_BENCH").is_ok() {
-        let t0 = std::time::Instant::now();
-        for _ in 0..50 {
-            let c = big.ctx.clone();
-            std::hint::black_box(&c);
-        }
-        eprintln!("clone+drop: {:.2} ms", t0.elapsed().as_secs_f64() * 20.0);
-        let t0 = std::time::Instant::now();
-        let run = Run::new(&big).unwrap();
-        for _ in 0..50 {
-            run.full_base_check().unwrap();
-        }
-        eprintln!("full_base_check: {:.2} ms", t0.elapsed().as_secs_f64() * 20.0);
-        let t0 = std::time::Instant::now();
-        for _ in 0..50 {
-            run.sweep().unwrap();
-        }
-        eprintln!("sweep: {:.4} ms", t0.elapsed().as_secs_f64() * 20.0);
-        let l = leaves();
-        let e = op(Op::And, vec![l.a8.clone(), l.b8.clone()]);
-        let t0 = std::time::Instant::now();
-        for _ in 0..50 {
-            let o = run_history(&big, &[&e, &e], 1, 0);
-            assert!(o.fail.is_none());
-        }
-        eprintln!("history: {:.2} ms", t0.elapsed().as_secs_f64() * 20.0);
-    }
     let rp = Reporter { rep, bases: &bases, seen: Default::default(), sabotage: sabotage_level() };
     let sts = stages(tier);
     let mut total = Acc::default();
